@@ -161,6 +161,9 @@ def obligations(tier):
     obs.append(Ob('labels-distinct-over-histories', 'symx', 'one object-table step from an arbitrary valid table (C02\'s obligation): incarnation index = creation order, so no two objects of a connection share id+letters',
                   objtable.FUNCS, 'ids symbolic incl. the server-range boundary; the C02 step restricted to messages that create objects', objtable.step,
                   cases=[('C02', 'other', ('new',), 2, 2), ('C02', 'other', ('new', 'new'), 1, 2), ('C02', 'other', ('new', 'obj'), 1, 2), ('C02', 'delete_id', ('int', 'new'), 1, 2)], stubs=objtable.STUBS))
+    obs.append(Ob('merged-untagged-connections', 'symx', 'a stream in which ids are requested again while their holders are alive (two connections logged without tags): no label ever names two objects',
+                  objtable.FUNCS + ['backends.libwayland_debug_output.parse:into_sink'], 'registry, bind, create_surface, then every stream of <= %d further lines from the same pool of 5' % (3 if tier == 'quick' else 4),
+                  objtable.merged_streams, cases=[4, 5, 6] if tier == 'quick' else [4, 5, 6, 7]))
     obs.append(Ob('long-reuse-labels', 'symx', 'an id handed out up to 703 times: labels a..z, aa.. without repeats', objtable.FUNCS, '27..703 creations', objtable.long_reuse, cases=[(28, True), (703, False)]))
     obs.append(Ob('list-by-label', 'symx', 'listing by displayed connection name / object label over recorded histories (also recorded while another connection was selected)', FUNCS_M + ['frontends.tui.controller:Controller.list_command'],
                   '4 histories x selection none/A/B while recording', list_by_label, cases=[(a, s) for a in [(0, 1), (0, 1, 1, 0), (1, 1, 0, 0, 1, 0)] for s in (None, 0, 1)]))
